@@ -119,6 +119,18 @@ type c05Step struct {
 	// host named by the delivered document's Destination attribute; anything else verbatim (a proxy's internal name).
 	// The configured SSO URL, not the transport's Host, says where this IdP lives.
 	HostHeader string `json:"host_header,omitempty"`
+	// Extra: parameters the browser sends along with SAMLRequest and RelayState - the fields of a login form drawn by the IdP's
+	// session provider and submitted together with the request it was drawn for, a submit button, a tracking parameter. The
+	// statement judges the authentication request; nothing that travels beside it makes an invalid request valid (or a valid one invalid).
+	Extra []c05Param `json:"extra_params,omitempty"`
+}
+
+// c05Param is one more parameter of the HTTP request. In: "body" = a field of the posted form (POST binding; the redirect
+// binding has no body, there it travels in the query), "query" = a parameter of the URL.
+type c05Param struct {
+	In    string `json:"in"`
+	Name  string `json:"name"`
+	Value string `json:"value"`
 }
 
 func c05BindingURI(b string) string {
@@ -656,9 +668,42 @@ func genIngress(g *Rng, tier string) *Plan {
 				st.Edits = append(st.Edits, c05Edit{Op: op, Name: "Destination", Value: "https://other-idp.example.net/sso"}, c05Edit{Op: op, Name: "Version", Value: "1.1"})
 			}
 		}
+		st.Extra = c05GenExtra(g, st.Binding)
 		p.Steps = append(p.Steps, mustJSON(st))
 	}
 	return p
+}
+
+// c05GenExtra: what else the browser sends with the request (35% of the requests): the fields of a login form (filled in, or
+// left empty), its submit button, parameters some page or proxy added; in the posted form or in the URL.
+func c05GenExtra(g *Rng, binding string) []c05Param {
+	if !g.Bool(0.35) {
+		return nil
+	}
+	where := func() string {
+		if binding == "post" && g.Bool(0.8) {
+			return "body"
+		}
+		return "query"
+	}
+	var out []c05Param
+	switch g.PickW(4, 2, 2, 2) {
+	case 0: // a login form, submitted
+		in := where()
+		out = append(out, c05Param{in, "user", Pick(g, "alice", "bob", "")}, c05Param{in, "password", Pick(g, "hunter2", "wrong", "")})
+		if g.Bool(0.5) {
+			out = append(out, c05Param{in, "submit", "Log In"})
+		}
+	case 1: // one more field of whatever form carried the request
+		out = append(out, c05Param{where(), Pick(g, "submit", "remember_me", "csrf_token", "lang"), Pick(g, "Log In", "on", "1", "")})
+	case 2: // parameters added on the way
+		out = append(out, c05Param{where(), Pick(g, "utm_source", "ref", "continue"), Pick(g, "newsletter", "https://sp0.example.com/", "")})
+	default: // several, in both places
+		for n := 2 + g.Intn(3); n > 0; n-- {
+			out = append(out, c05Param{where(), Pick(g, "user", "password", "submit", "otp", "lang", "utm_source"), Pick(g, "alice", "hunter2", "Log In", "123456", "")})
+		}
+	}
+	return out
 }
 
 func c05GenEdit(g *Rng, st *c05Step, flat []c05ACS, mid int64) []c05Edit {
@@ -799,19 +844,66 @@ type c05Wire struct {
 	relay   string
 }
 
-func (w *c05Wire) httpRequest(sso string) *http.Request {
-	if w.binding == "redirect" {
-		q := "SAMLRequest=" + url.QueryEscape(c05Deflate(w.xml))
-		if w.relay != "" {
-			q += "&RelayState=" + url.QueryEscape(w.relay)
-		}
-		sep := "?"
-		if strings.Contains(sso, "?") {
-			sep = "&"
-		}
-		return httptest.NewRequest("GET", sso+sep+q, nil)
+func (w *c05Wire) httpRequest(sso string, extra []c05Param) *http.Request {
+	q := ""
+	sep := "?"
+	if strings.Contains(sso, "?") {
+		sep = "&"
 	}
-	return postRequest(sso, url.Values{"SAMLRequest": {base64.StdEncoding.EncodeToString(w.xml)}, "RelayState": {w.relay}})
+	add := func(name, value string) {
+		q += sep + url.QueryEscape(name) + "=" + url.QueryEscape(value)
+		sep = "&"
+	}
+	if w.binding == "redirect" {
+		add("SAMLRequest", c05Deflate(w.xml))
+		if w.relay != "" {
+			add("RelayState", w.relay)
+		}
+	}
+	fields := url.Values{"SAMLRequest": {base64.StdEncoding.EncodeToString(w.xml)}, "RelayState": {w.relay}}
+	for _, x := range extra {
+		if c05ProtocolParam(x.Name) {
+			continue // a plan edited by hand: the request and its relay state travel once
+		}
+		if x.In == "body" && w.binding != "redirect" {
+			fields.Add(x.Name, x.Value)
+		} else {
+			add(x.Name, x.Value)
+		}
+	}
+	if w.binding == "redirect" {
+		return httptest.NewRequest("GET", sso+q, nil)
+	}
+	return postRequest(sso+q, fields)
+}
+
+// c05ProtocolParam: the parameter names the bindings define; extra parameters are never one of these.
+func c05ProtocolParam(name string) bool {
+	switch name {
+	case "SAMLRequest", "SAMLResponse", "RelayState", "SigAlg", "Signature", "SAMLEncoding", "SAMLart":
+		return true
+	}
+	return false
+}
+
+// c05ExtraNames: where and under which names the extra parameters travel (for the log).
+func c05ExtraNames(binding string, extra []c05Param) []string {
+	var out []string
+	for _, x := range extra {
+		if c05ProtocolParam(x.Name) {
+			continue
+		}
+		in := "query"
+		if x.In == "body" && binding != "redirect" {
+			in = "body"
+		}
+		v := "="
+		if x.Value == "" {
+			v = "=(empty)"
+		}
+		out = append(out, in+":"+x.Name+v)
+	}
+	return out
 }
 
 // c05View is what the delivered document says, read with the harness's own parser.
@@ -1246,7 +1338,21 @@ func execIngress(t *testing.T, p *Plan) *Result {
 			res.probe("issuer-registered-with-differing-documents")
 		}
 		// ---- the real IdP
-		hr := wire.httpRequest(sso)
+		hr := wire.httpRequest(sso, st.Extra)
+		extras := c05ExtraNames(st.Binding, st.Extra)
+		extraBody, extraFilled := false, false
+		for i, x := range extras {
+			if strings.HasPrefix(x, "body:") {
+				extraBody = true
+			}
+			if !strings.HasSuffix(x, "=(empty)") {
+				extraFilled = true
+			}
+			extras[i] = strings.TrimSuffix(x, "=")
+		}
+		if len(extras) > 0 {
+			res.fire("transport:extra-parameters-beside-request")
+		}
 		switch {
 		case st.HostHeader == "@destination":
 			if du, e := url.Parse(view.dest); e == nil && view.hasDest && du.Host != "" && du.Host != hr.Host {
@@ -1304,7 +1410,7 @@ func execIngress(t *testing.T, p *Plan) *Result {
 				observed = "ACCEPT(" + c05EPString(*sel) + ")"
 			})
 		})
-		res.logf("step %d %s via=%s sp%d tenant=%d(for %d) age=%s(%s) edits=%v regops=%v expect=%s observed=%s", si, st.Binding, st.Via, st.SP, st.Tenant, st.IssuedFor, st.Age, c05AgeRel(view, idpNow, k.MaxIssueDelayMs), edits, ops, expect, observed)
+		res.logf("step %d %s via=%s sp%d tenant=%d(for %d) age=%s(%s) edits=%v regops=%v extra=%v expect=%s observed=%s", si, st.Binding, st.Via, st.SP, st.Tenant, st.IssuedFor, st.Age, c05AgeRel(view, idpNow, k.MaxIssueDelayMs), edits, ops, extras, expect, observed)
 
 		// ---- bookkeeping
 		if st.Age != "far-in" {
@@ -1323,7 +1429,7 @@ func execIngress(t *testing.T, p *Plan) *Result {
 		if m := cases[0].meta; m != nil {
 			nreg = len(c05Flatten(m))
 		}
-		if st.Age != "far-in" || len(st.Edits) > 0 || st.Tenant != st.IssuedFor || len(ops) > 0 || nreg >= 2 {
+		if st.Age != "far-in" || len(st.Edits) > 0 || st.Tenant != st.IssuedFor || len(ops) > 0 || nreg >= 2 || len(extras) > 0 {
 			res.Nontrivial = true
 		}
 		if pan != nil {
@@ -1403,8 +1509,20 @@ func execIngress(t *testing.T, p *Plan) *Result {
 			if st.Age == "in+1ms" && !c05Has(edits, "redate") {
 				res.probe("accepted-1ms-inside")
 			}
+			if len(extras) > 0 {
+				res.probe("answered-request-with-extra-parameters")
+				if extraBody && extraFilled {
+					res.probe("answered-request-posted-with-filled-in-form-fields")
+				}
+			}
 		} else if len(exp.reject) == 1 {
 			res.probe("rejected-only-for:" + exp.reject[0])
+			if len(extras) > 0 {
+				res.probe("rejected-with-extra-parameters-only-for:" + exp.reject[0])
+				if extraBody && extraFilled {
+					res.probe("rejected-posted-with-filled-in-form-fields-only-for:" + exp.reject[0])
+				}
+			}
 			if exp.reject[0] == "stale" && st.Age == "out-1ms" && !c05Has(edits, "redate") {
 				res.probe("rejected-1ms-outside")
 			}
@@ -1632,6 +1750,14 @@ func simplifyIngress(p *Plan) []*Plan {
 		if len(st.RegOps) > 0 {
 			mod(func(s *c05Step) { s.RegOps = nil })
 		}
+		if len(st.Extra) > 0 {
+			mod(func(s *c05Step) { s.Extra = nil })
+			for j := range st.Extra {
+				if len(st.Extra) > 1 {
+					mod(func(s *c05Step) { s.Extra = append(append([]c05Param{}, s.Extra[:j]...), s.Extra[j+1:]...) })
+				}
+			}
+		}
 		if st.Via == "sso" && st.Kind == "request" {
 			mod(func(s *c05Step) { s.Via = "validate" })
 		}
@@ -1716,7 +1842,7 @@ var _ = sort.Strings
 func init() {
 	register(&Profile{
 		ID: "C05", Name: "idp-ingress", Level: "exploration",
-		Rule: "each run: two IdP tenants (SSO URLs where one is a prefix of the other) with registries of hand-built SP metadata (0-2 SPSSODescriptors, 0-4 ACS endpoints each, POST/Redirect/Artifact/unknown bindings, distinct/duplicate indices, isDefault true/false/absent, duplicate and near-miss locations); 1-3 steps, each: the real SP issues an AuthnRequest (redirect or POST binding), the network delays it so that its age at the IdP's skewed clock is {far-in, MaxIssueDelay-1ms, +1ms, edge, half, 1.5x, 5x, far-out, near/far future}, Mallory applies 0-2 edits to the unsigned document (ACS URL unregistered/near-miss/other registered, index registered/unregistered/non-numeric, index+disagreeing URL, neither, Issuer other/unknown/near-miss/dropped, Destination other tenant/near-miss/prefix/absent, Version variants, re-dating), the registry may change between issue and delivery, the message may reach the other tenant; the real IdP consumes it via NewIdpAuthnRequest+Validate or ServeSSO (plus IdP-initiated launches); non-trivial = a step with a non-far-in age, an edit, a cross-tenant delivery, a registry change, or a provider with >=2 registered endpoints; distinct = distinct abstract event log (binding, entry, age class, edit kinds, expectation incl. permitted endpoint set, outcome incl. selected endpoint); registered ACS elements may carry a ResponseLocation attribute (never a routing target); the HTTP Host header may follow the delivered document's Destination or name a proxy (the configured SSO URL alone says where the IdP lives); providers are registered from hand-built descriptors or (40%; always at a server) from metadata documents written by the harness and read by the library's metadata decoder (which keeps no Location for an endpoint of a binding it does not know); in 35% of runs each tenant's registry is a samlidp.Server over a MemoryStore, its IdentityProvider consulted with the SSO URL and a fixed session set on it: documents are PUT under one or two service names per entity ID in a drawn order, registry changes PUT a document under a name that carries the entity ID, a new name or a name of the other entity ID, or DELETE one name while another may still carry the entity ID; when documents that differ are stored for one entity ID the outcome must be what the statement yields for one of them",
+		Rule: "each run: two IdP tenants (SSO URLs where one is a prefix of the other) with registries of hand-built SP metadata (0-2 SPSSODescriptors, 0-4 ACS endpoints each, POST/Redirect/Artifact/unknown bindings, distinct/duplicate indices, isDefault true/false/absent, duplicate and near-miss locations); 1-3 steps, each: the real SP issues an AuthnRequest (redirect or POST binding), the network delays it so that its age at the IdP's skewed clock is {far-in, MaxIssueDelay-1ms, +1ms, edge, half, 1.5x, 5x, far-out, near/far future}, Mallory applies 0-2 edits to the unsigned document (ACS URL unregistered/near-miss/other registered, index registered/unregistered/non-numeric, index+disagreeing URL, neither, Issuer other/unknown/near-miss/dropped, Destination other tenant/near-miss/prefix/absent, Version variants, re-dating), the registry may change between issue and delivery, the message may reach the other tenant; the real IdP consumes it via NewIdpAuthnRequest+Validate or ServeSSO (plus IdP-initiated launches); non-trivial = a step with a non-far-in age, an edit, a cross-tenant delivery, a registry change, or a provider with >=2 registered endpoints; distinct = distinct abstract event log (binding, entry, age class, edit kinds, expectation incl. permitted endpoint set, outcome incl. selected endpoint); registered ACS elements may carry a ResponseLocation attribute (never a routing target); the HTTP Host header may follow the delivered document's Destination or name a proxy (the configured SSO URL alone says where the IdP lives); providers are registered from hand-built descriptors or (40%; always at a server) from metadata documents written by the harness and read by the library's metadata decoder (which keeps no Location for an endpoint of a binding it does not know); in 35% of runs each tenant's registry is a samlidp.Server over a MemoryStore, its IdentityProvider consulted with the SSO URL and a fixed session set on it: documents are PUT under one or two service names per entity ID in a drawn order, registry changes PUT a document under a name that carries the entity ID, a new name or a name of the other entity ID, or DELETE one name while another may still carry the entity ID; when documents that differ are stored for one entity ID the outcome must be what the statement yields for one of them; 35% of the requests travel with other parameters beside SAMLRequest/RelayState (a login form's user/password filled in or empty, a submit button, csrf/tracking parameters; in the posted form or in the URL), which change nothing about what the statement says of the request",
 		Gen:  genIngress, Exec: execIngress, Simplify: simplifyIngress,
 		RunsQuick: 8000, RunsThorough: 800000,
 		Assumptions: []string{
